@@ -2,7 +2,7 @@
 """Regenerates /verif/MANIFEST.json from the table below (kept in one place so that it stays valid)."""
 import json, subprocess
 props = [json.loads(l) for l in open('/verif/properties.jsonl')]
-HOOK_COMMITS = ["ea0c217"]
+HOOK_COMMITS = ["ea0c217", "aaab671"]
 MUX = "runtime monitoring: sequential observation history of the real Muxer (every Write followed by fetching and decoding everything served) checked by a reference-model oracle"
 CHECKS = {
  "C01": ("muxmon", "exploration", MUX,
